@@ -387,6 +387,17 @@ theorem never_stale {cfg : TtlConfig} (hd : DurOK cfg) (hs : SecsOK cfg) (ops : 
   obtain ⟨r0, t0, ht, hle, _⟩ := get_run hd hs ops hr q now res hg
   exact ⟨r0, t0, ht, (track_ins ht).1, hle⟩
 
+/-- Converse of `never_stale` (not demanded by the property; it shows the theorems do not hold
+vacuously because the model would never answer): up to and including `t0 + L` the entry is served. -/
+theorem served_while_fresh {cfg : TtlConfig} (hd : DurOK cfg) (hs : SecsOK cfg) (ops : List Op)
+    (hr : Representable cfg ops) (q : Query) (now : Nat) (r0 : Res) (t0 : Nat)
+    (ht : track ops q = some (r0, t0)) (hle : now ≤ t0 + lifetime cfg q.qtype r0) :
+    Cache.get (run cfg [] ops) q now = some ((stored cfg r0).decr (elapsedOf t0 now)) := by
+  unfold Cache.get
+  rw [lookup_run hd hs ops hr q, ht]
+  simp only [Option.map_some, Entry.isCurrent, entryOf, decide_eq_true_eq, if_pos hle]
+  rfl
+
 /-- The `L` of a positive answer lies within the positive bounds of the query type and is at most
 the clamped value of every stored TTL of a record of the queried type or CNAME. -/
 theorem posLife_bounds {cfg : TtlConfig} (hd : DurOK cfg) (qt : Nat) (m : Msg) :
@@ -747,9 +758,8 @@ theorem no_panic_partial {cfg : TtlConfig} (hd : DurOK cfg) (hs : SecsOK cfg) (s
   · exact ⟨_, insert_ok hd hs s q r t hc hr⟩
   · exact ⟨s, transient_not_cached cfg s q r t (by simpa using hc)⟩
 
-/-- `get` has no panicking operation at all: it is a total function (its type has no `panic`). -/
-theorem get_total (s : State) (q : Query) (now : Nat) : (Cache.get s q now).isSome ∨ Cache.get s q now = none := by
-  cases Cache.get s q now <;> simp
+/- `get` has no panicking operation at all (saturating subtractions, a comparison): in the model it
+is a total function into `Option Res`, there is no `panic` value it could return. -/
 
 /-- global bounds `min = 100 000 s ≤ max = 2^32 s` -/
 def cfgSecsInverted : TtlConfig :=
